@@ -774,6 +774,32 @@ theorem codeView_of_rsds (v : View) (d : Nat) (data : Ref) (hd : dirData v d = s
 
 /-! ### POGO iterator -/
 
+/-- the collection loop with the single step `pgoNext` inlined -/
+theorem pgoLoop_succ (b : Bytes) (fuel off n : Nat) :
+    pgoLoop b (fuel + 1) off n =
+      if n ≥ 3 then
+        match cstrFromBytes b (off + 8) (4 * (n - 2)) with
+        | none => .ok []
+        | some name =>
+          if 2 + (name.len - 1) / 4 + 1 > n then .panic "PgoIter::next:image[2+len+1..]"
+          else
+            pgoLoop b fuel (off + 4 * (2 + (name.len - 1) / 4 + 1)) (n - (2 + (name.len - 1) / 4 + 1)) >>= fun rest =>
+            .ok (⟨le32 b off, le32 b (off + 4), name⟩ :: rest)
+      else .ok [] := by
+  rw [pgoLoop]
+  unfold pgoNext
+  simp only
+  by_cases h3 : n ≥ 3
+  · rw [if_pos h3, if_pos h3]
+    cases cstrFromBytes b (off + 8) (4 * (n - 2)) with
+    | none => rfl
+    | some name =>
+      simp only
+      by_cases hp : 2 + (name.len - 1) / 4 + 1 > n
+      · rw [if_pos hp, if_pos hp]; rfl
+      · rw [if_neg hp, if_neg hp]; rfl
+  · rw [if_neg h3, if_neg h3]; rfl
+
 theorem pgoLoop_safe (b : Bytes) : ∀ (fuel off n : Nat), n < fuel →
     ∃ l, pgoLoop b fuel off n = .ok l ∧
       ∀ it ∈ l, off + 8 ≤ it.name.off ∧ it.name.off + it.name.len ≤ off + 4 * n ∧ it.name.align = 1 := by
@@ -782,10 +808,9 @@ theorem pgoLoop_safe (b : Bytes) : ∀ (fuel off n : Nat), n < fuel →
   | zero => intro off n h; omega
   | succ fuel ih =>
     intro off n hn
-    rw [pgoLoop]
+    rw [pgoLoop_succ]
     by_cases h3 : n ≥ 3
     · rw [if_pos h3]
-      simp only
       cases hc : cstrFromBytes b (off + 8) (4 * (n - 2)) with
       | none => exact ⟨[], rfl, fun it h => by cases h⟩
       | some name =>
@@ -820,14 +845,13 @@ theorem pgoLoop_layout {b : Bytes} {off stop : Nat} {recs : List (Nat × Nat × 
   | nil off =>
     intro n fuel h1 h2 h3
     obtain ⟨f, rfl⟩ : ∃ f, fuel = f + 1 := ⟨fuel - 1, by simp at h3; omega⟩
-    rw [pgoLoop, if_neg (by omega)]
+    rw [pgoLoop_succ, if_neg (by omega)]
     rfl
   | cons off rva size L rest stop h1 h2 h3 h4 hrest ih =>
     intro n fuel g1 g2 g3
     obtain ⟨f, rfl⟩ : ∃ f, fuel = f + 1 := ⟨fuel - 1, by simp at g3; omega⟩
     have hle := pogoLayout_le hrest
-    rw [pgoLoop, if_pos (by omega)]
-    simp only
+    rw [pgoLoop_succ, if_pos (by omega)]
     have hc : cstrFromBytes b (off + 8) (4 * (n - 2)) = some ⟨off + 8, L + 1, 1⟩ :=
       cstrFromBytes_of_isCStr ⟨by omega, h3, h4⟩
     rw [hc]
@@ -842,7 +866,7 @@ theorem pgoLoop_layout {b : Bytes} {off stop : Nat} {recs : List (Nat × Nat × 
 theorem pgoItems_safe (b : Bytes) (image : Ref) :
     ∃ l, pgoItems b image = .ok l ∧
       ∀ it ∈ l, image.off ≤ it.name.off ∧ it.name.off + it.name.len ≤ image.off + 4 * (image.len / 4) ∧ it.name.align = 1 := by
-  unfold pgoItems pgoIterStart
+  unfold pgoItems pgoItemsFrom pgoIterStart
   simp only
   by_cases h : image.len / 4 ≥ 1
   · rw [if_pos h]
@@ -853,6 +877,85 @@ theorem pgoItems_safe (b : Bytes) (image : Ref) :
     simp only
     obtain ⟨l, hl, hall⟩ := pgoLoop_safe b (image.len / 4 + 1) image.off (image.len / 4) (by omega)
     exact ⟨l, hl, fun it hit => by obtain ⟨a1, a2, a3⟩ := hall it hit; omega⟩
+
+/-! ### a single `PgoIter::next` step -/
+
+/-- `next` never panics (the reslice `&self.image[2 + len + 1..]` is in range); a `None` leaves the state
+untouched, a `Some` strictly shrinks the window and keeps its end -/
+theorem pgoNext_ok (b : Bytes) (st : Nat × Nat) :
+    ∃ r, pgoNext b st = .ok r ∧ (r.1 = none → r.2 = st) ∧
+      (∀ it, r.1 = some it → r.2.2 < st.2 ∧ r.2.1 + 4 * r.2.2 = st.1 + 4 * st.2 ∧ st.1 < r.2.1) := by
+  obtain ⟨off, n⟩ := st
+  unfold pgoNext
+  simp only
+  by_cases h3 : n ≥ 3
+  · rw [if_pos h3]
+    cases hc : cstrFromBytes b (off + 8) (4 * (n - 2)) with
+    | none => exact ⟨_, rfl, fun _ => rfl, fun it h => by cases h⟩
+    | some name =>
+      obtain ⟨g1, g2, g3, g4, _⟩ := cstrFromBytes_some hc
+      simp only
+      rw [if_neg (by omega)]
+      refine ⟨_, rfl, fun h => (by cases h), fun it _ => ?_⟩
+      simp only
+      omega
+  · rw [if_neg h3]
+    exact ⟨_, rfl, fun _ => rfl, fun it h => by cases h⟩
+
+theorem pgoLoop_step (b : Bytes) (fuel off n : Nat) :
+    pgoLoop b (fuel + 1) off n =
+      pgoNext b (off, n) >>= fun r =>
+        match r.1 with
+        | none => .ok []
+        | some item => pgoLoop b fuel r.2.1 r.2.2 >>= fun rest => .ok (item :: rest) := rfl
+
+/-- the collection does not depend on the fuel once it exceeds the window length -/
+theorem pgoLoop_fuel (b : Bytes) :
+    ∀ (n fuel fuel' off : Nat), n < fuel → n < fuel' → pgoLoop b fuel off n = pgoLoop b fuel' off n := by
+  intro n
+  induction n using Nat.strongRecOn with
+  | ind n ih =>
+    intro fuel fuel' off h1 h2
+    obtain ⟨f, rfl⟩ : ∃ f, fuel = f + 1 := ⟨fuel - 1, by omega⟩
+    obtain ⟨f', rfl⟩ : ∃ f, fuel' = f + 1 := ⟨fuel' - 1, by omega⟩
+    rw [pgoLoop_step, pgoLoop_step]
+    obtain ⟨r, hr, _, hsome⟩ := pgoNext_ok b (off, n)
+    rw [hr]
+    simp only [Out.bind_ok]
+    cases h : r.1 with
+    | none => rfl
+    | some item =>
+      obtain ⟨hlt, _⟩ := hsome item h
+      simp only at hlt ⊢
+      rw [ih r.2.2 hlt f f' r.2.1 (by omega) (by omega)]
+
+/-- `next` pops the head of the sequence of remaining items and leaves the iterator on its tail -/
+theorem pgoNext_is_head (b : Bytes) (st : Nat × Nat) :
+    ∃ l r, pgoItemsFrom b st = .ok l ∧ pgoNext b st = .ok r ∧ r.1 = l.head? ∧ pgoItemsFrom b r.2 = .ok l.tail := by
+  obtain ⟨r, hr, hnone, hsome⟩ := pgoNext_ok b st
+  obtain ⟨off, n⟩ := st
+  unfold pgoItemsFrom
+  simp only
+  rw [pgoLoop_step, hr]
+  simp only [Out.bind_ok]
+  cases h : r.1 with
+  | none =>
+    refine ⟨[], r, rfl, rfl, by rw [h]; rfl, ?_⟩
+    rw [hnone h]
+    simp only
+    rw [pgoLoop_step, hr]
+    simp only [Out.bind_ok]
+    rw [h]
+    rfl
+  | some item =>
+    obtain ⟨hlt, _⟩ := hsome item h
+    simp only at hlt
+    obtain ⟨l', hl', _⟩ := pgoLoop_safe b n r.2.1 r.2.2 hlt
+    rw [hl']
+    simp only [Out.bind_ok]
+    refine ⟨item :: l', r, rfl, rfl, by rw [h]; rfl, ?_⟩
+    rw [pgoLoop_fuel b r.2.2 (r.2.2 + 1) n r.2.1 (by omega) hlt, hl']
+    rfl
 
 /-! ### pdb_file_name -/
 
@@ -1106,6 +1209,48 @@ theorem vaListUntilZero_eq (b : Bytes) (ps : Nat) :
     apply List.map_congr_left
     intro j _
     simp only [Function.comp, e]
+
+/-- what a `some` answer of the specification's list means: the first zero entry is entry `l.length`, inside the
+available entries, and `l` is the entries before it -/
+theorem vaListUntilZero_some (b : Bytes) (ps : Nat) :
+    ∀ (avail off : Nat) (l : List Nat), Spec.vaListUntilZero b off ps avail = some l →
+      l.length + 1 ≤ avail ∧ leN b (off + l.length * ps) ps = 0 ∧
+      (∀ j, j < l.length → leN b (off + j * ps) ps ≠ 0) ∧
+      l = (List.range l.length).map fun j => leN b (off + j * ps) ps := by
+  intro avail
+  induction avail with
+  | zero => intro off l h; cases h
+  | succ a ih =>
+    intro off l h
+    unfold Spec.vaListUntilZero at h
+    simp only at h
+    have e : ∀ j, off + ps + j * ps = off + (j + 1) * ps := fun j => by rw [Nat.succ_mul]; omega
+    by_cases h0 : leN b off ps = 0
+    · rw [if_pos h0] at h
+      cases h
+      refine ⟨by simp, by simpa using h0, fun j hj => by simp at hj, by simp⟩
+    · rw [if_neg h0] at h
+      cases hr : Spec.vaListUntilZero b (off + ps) ps a with
+      | none => rw [hr] at h; cases h
+      | some l' =>
+        rw [hr] at h
+        simp only [Option.map_some, Option.some.injEq] at h
+        subst h
+        obtain ⟨g1, g2, g3, g4⟩ := ih (off + ps) l' hr
+        refine ⟨by simp only [List.length_cons]; omega, ?_, ?_, ?_⟩
+        · simp only [List.length_cons]; rw [← e]; exact g2
+        · intro j hj
+          simp only [List.length_cons] at hj
+          cases j with
+          | zero => simpa using h0
+          | succ j => rw [← e]; exact g3 j (by omega)
+        · simp only [List.length_cons]
+          rw [List.range_succ_eq_map, List.map_cons, List.map_map]
+          simp only [Nat.zero_mul, Nat.add_zero, List.cons.injEq, true_and]
+          conv => lhs; rw [g4]
+          apply List.map_congr_left
+          intro j _
+          simp only [Function.comp, e]
 
 theorem vaListUntilZero_none (b : Bytes) (ps : Nat) :
     ∀ (avail off : Nat), (∀ j, j < avail → leN b (off + j * ps) ps ≠ 0) →
